@@ -4,6 +4,7 @@
 //! vp worker <Cxx> --tier T --shard i --of n --out F   (one shard, JSON report to F)
 //! vp replay <Cxx> <file>                              (re-execute one recorded case twice)
 
+mod explore;
 mod mirror;
 mod props;
 mod refmodel;
